@@ -71,7 +71,8 @@ def main():
         results = {}
         for c in checks:
             t0 = time.time()
-            r = sh(f"cd {VERIF} && TFMC_REPO={wt} TFMC_EVIDENCE_DIR={ev} TFMC_REPLAY_DIR={rp} ./run.sh {c} quick")
+            # fail-fast: the question here is only whether the check raises an alarm on the changed tree
+            r = sh(f"cd {VERIF} && TFMC_FAIL_FAST=1 TFMC_MAX_GATE=3 TFMC_REPO={wt} TFMC_EVIDENCE_DIR={ev} TFMC_REPLAY_DIR={rp} ./run.sh {c} quick")
             nviol = sum(1 for l in r.stdout.splitlines() if l.startswith("VIOLATION"))
             sigs = [l.strip()[len("signature: "):] for l in r.stdout.splitlines() if l.strip().startswith("signature: ")]
             results[c] = {"exit": r.returncode, "violation_lines": nviol, "first_signatures": sigs[:3], "wall_s": round(time.time() - t0, 1)}
